@@ -331,8 +331,9 @@ def h_the_evaluate():
         ctx = vm.ctx
         n = ctx.fresh_int("n", register=True)
         ctx.assume(n >= 0)
-        sol = vm.alloc(vm.ext("object"), tag="solution")
-        other = vm.alloc(vm.ext("object"), tag="other-solution")
+        from contracts.lib import UserVal, install_user_hooks
+        install_user_hooks(vm)
+        sol = UserVal("solution")      # an arbitrary value: its truth value, equality, ... are unconstrained
         q = vm.alloc(cls(vm, SYM, "The"), {}, tag="the")
 
         def results():
@@ -420,6 +421,16 @@ def h_an_the_passthrough():
               and made[1][0] == "An" and made[1][2].get("_quantification_constraint_") is None
               and made[2][0] == "The" and made[2][1] == [ent] and not made[2][2])
         ctx.check("an/the::constraint-passed-through-unchanged", z3.BoolVal(ok), detail=repr(made))
+        # pattern-matching descriptions (Match without a variable) are quantified through their expression
+        del made[:]
+        expr = vm.alloc(cls(vm, SYM, "Entity"), {}, tag="match-expression")
+        MATCH = "krrood.entity_query_language.match"
+        m = vm.alloc(cls(vm, MATCH, "Match"), {"variable": None, "expression": expr}, tag="match")
+        vm.call(vm.module_global(QE, "an"), [m], {"quantification": c})
+        vm.call(vm.module_global(QE, "the"), [m], {})
+        ok = (len(made) == 2 and made[0][0] == "An" and made[0][1] == [expr] and made[0][2].get("_quantification_constraint_") is c
+              and made[1][0] == "The" and made[1][1] == [expr] and not made[1][2])
+        ctx.check("an/the::constraint-passed-through-for-match-descriptions", z3.BoolVal(ok), detail=repr(made))
     return Harness("an-the-passthrough", run, spec=Spec())
 
 
